@@ -6,7 +6,7 @@ import re, sys
 
 VSYNC = 'github.com/robustirc/robustirc/internal/verif/vsync'
 
-def rewrite_text(src, path='<input>'):
+def rewrite_text(src, path='<input>', VSYNC=VSYNC):
     n_sync = len(re.findall(r'^\s*"sync"\s*$', src, flags=re.M))
     n_sleep = src.count('time.Sleep(')
     if n_sync == 0 and n_sleep == 0:
@@ -28,9 +28,9 @@ def rewrite_text(src, path='<input>'):
         out += '\nvar _ = time.Second\n'
     return out
 
-def rewrite_file(src_path, out_path):
+def rewrite_file(src_path, out_path, pkg='vsync'):
     src = open(src_path).read()
-    open(out_path, 'w').write(rewrite_text(src, src_path))
+    open(out_path, 'w').write(rewrite_text(src, src_path, VSYNC.rsplit('/', 1)[0] + '/' + pkg))
 
 if __name__ == '__main__':
     rewrite_file(sys.argv[1], sys.argv[2])
